@@ -14,11 +14,11 @@ META = {
         "(sequence length, mask)."
     ),
     "floors": {
-        "quick": {"evaluations": 100000, "mon.dist": 100000, "mon.mask_roundtrip": 5000, "mon.insitu_dist": 2000},
+        "quick": {"evaluations": 1000000, "mon.dist": 1000000, "mon.mask_roundtrip": 5000, "mon.insitu_dist": 2000},
         "thorough": {"evaluations": 2000000, "mon.dist": 2000000, "mon.mask_roundtrip": 50000, "mon.insitu_dist": 10000},
     },
     "exhaustive": {"quick": True, "thorough": True},
-    "space": {"quick": "all non-empty child masks x parent masks up to 8 bits x both end modes; all sequences up to length 8 (all orders up to length 5) and all subsequences", "thorough": "all mask pairs up to 10 bits x both modes (2.1M); all sequences up to length 9 (distinct elements, 3 alphabets) and all subsequences"},
+    "space": {"quick": "all non-empty child masks x parent masks up to 10 bits x both end modes; all sequences up to length 8 (all orders up to length 5) and all subsequences", "thorough": "all mask pairs up to 11 bits x both modes (8.4M); all sequences up to length 9 (distinct elements, 3 alphabets) and all subsequences"},
     "assumptions": ["the empty child mask is excluded, as the property states"],
     "timeout": {"quick": 420, "thorough": 3600},
 }
@@ -27,7 +27,7 @@ META = {
 def plan(tier, seed):
     q = tier == "quick"
     n = 16
-    specs = [{"kind": "dist", "i": i, "n": n, "bits": 8 if q else 10} for i in range(n)]
+    specs = [{"kind": "dist", "i": i, "n": n, "bits": 10 if q else 11} for i in range(n)]
     specs += [{"kind": "masks", "i": i, "n": 4, "maxlen": 8 if q else 9} for i in range(4)]
     specs += [{"kind": "insitu", "i": i, "count": 12 if q else 60} for i in range(4)]
     return specs
@@ -130,6 +130,10 @@ def run(ctx, spec):
                             ctx.viol("C18.masks", {"kind": "complete", "parent": list(parent)}, "subseq_complete is not the full mask")
                         for mask in range(1 << L):
                             sub = [parent[i] for i in range(L) if mask >> i & 1]
+                            if ai == 1:
+                                sub = [str(x[:1]) + str(x[1:]) for x in sub]  # equal but not identical strings
+                            elif ai == 2 and mask % 2:
+                                sub = [float(x) for x in sub]  # 1 == 1.0
                             got_mask = SUB.mask_from_subseq(sub, parent)
                             got_sub = list(SUB.subseq_from_mask(mask, parent))
                             cnt += 2
